@@ -79,3 +79,12 @@ Theorem C11_kernels_are_model A l2 n1 :
   triangles_of A l2 n1 = pair_loop (fun n3 n2 => qb (gen_clc_triangles A n1 n2 n3)) l2.
 Proof. exact (gen_counts_are_model A l2 n1). Qed.
 Print Assumptions C11_kernels_are_model.
+
+(* ---- the two n.s.i. kernels (link test on A+, unique pairs q > p counted
+        twice, the pair p = q once) and the A + Id their callers hand them are
+        the text the terms nsi_cross_transitivity / nsi_cross_local_clustering
+        of Model/Measures.v transcribe; regenerated on every run ---- *)
+Theorem C11_nsi_kernels_are_model :
+  gen_nsi_cross_kernels_are_model = true /\ gen_cross_kernels_skeleton = true.
+Proof. exact (conj gen_nsi_kernels gen_skeleton). Qed.
+Print Assumptions C11_nsi_kernels_are_model.
